@@ -166,13 +166,17 @@ inductive Op1 where
   | translate | scale
   | toCart | toPolar | toSpherical | az
   | toRgb | toRgba | toHsl | toHsla | toLinear | toSrgb | toColor3 | toColor4
+  | chanR | chanH     -- `a.r()`, `a.h()`   colour channel accessors (per colour space)
+  | compZ             -- `a.z()`            component accessor (per space)
   | render       -- `render(.., &Shader::new(|_, _| vertex(a, ()), ..), ..)`
   deriving DecidableEq, Repr, Inhabited
 
 inductive Op2 where
   | add | sub | mul | div        -- operators
   | mAdd | mSub | mMul           -- `a.add(&b)`, `a.sub(&b)`, `a.mul(b)`
-  | dot | cross | distance
+  | addAssign | subAssign | mulAssign | divAssign   -- `{ let mut t = a; t += b; t }` …
+  | dot | cross | distance | vproj   -- vproj: `a.vector_project(&b)`
+  | min                          -- `a.min(b)`
   | apply | applyPt | compose | thn
   | polar | atan2
   | pairOf                       -- `(a, b)`
@@ -338,6 +342,14 @@ def ty1 (o : Op1) (x : Ty) : Option Ty :=
     match x with
     | .col s n sp => tyColour o s n sp
     | _ => none
+  -- color.rs:343-417  r()/g()/b() for Color<R, Rgb|Rgba>, h()/s()/l() for Color<R, Hsl|Hsla>
+  | .chanR => match x with | .col s _ sp => if sp = .rgb ∨ sp = .rgba then some (.sc s) else none | _ => none
+  | .chanH => match x with | .col s _ sp => if sp = .hsl ∨ sp = .hsla then some (.sc s) else none | _ => none
+  -- vec.rs:254-272, 313-332, point.rs:131-150  z() for Vector<R, Real<3,B>>, Vector<R, Proj4>, Point<R, Real<3,B>>
+  | .compZ =>
+    match x with
+    | .vec s _ (.real 3 _) | .vec s _ .proj4 | .pt s _ (.real 3 _) => some (.sc s)
+    | _ => none
   -- render.rs:82-106  Shd: VertexShader<Vtx, Uni, Output = Vertex<ProjVec4, Var>>
   | .render => if x = projVec4 then some .unit else none
 
@@ -367,6 +379,25 @@ def ty2 (o : Op2) (x y : Ty) : Option Ty :=
   | .sub => tySub x y
   | .mul => tyMul x y
   | .div => tyDiv x y
+  -- vec.rs:530, point.rs:254  impl AddAssign<<Self as Affine>::Diff> where Self: Affine;  core: f32 += f32 …
+  -- vec.rs:543, point.rs:276  impl SubAssign<<Self as Affine>::Diff>             (Angle has no op-assign impls)
+  | .addAssign | .subAssign =>
+    match x with
+    | .sc _ => if y = x then some x else none
+    | .vec .. | .pt .. => match affineDiff x with | some d => if y = d then some x else none | none => none
+    | _ => none
+  -- vec.rs:557  impl MulAssign<<Self as Linear>::Scalar> for Vector where Self: Linear
+  | .mulAssign =>
+    match x with
+    | .sc _ => if y = x then some x else none
+    | .vec .. => match linearScalar x with | some k => if y = k then some x else none | none => none
+    | _ => none
+  -- vec.rs:570  impl DivAssign<f32> for Vector where Self: Linear<Scalar = f32>
+  | .divAssign =>
+    match x with
+    | .sc _ => if y = x then some x else none
+    | .vec .. => if linearScalar x = some f32 ∧ y = f32 then some x else none
+    | _ => none
   -- space.rs:29  fn add(&self, diff: &Self::Diff) -> Self
   | .mAdd => match affineDiff x with | some d => if y = d then some x else none | none => none
   -- space.rs:34  fn sub(&self, other: &Self) -> Self::Diff
@@ -375,6 +406,14 @@ def ty2 (o : Op2) (x y : Ty) : Option Ty :=
   | .mMul => match linearScalar x with | some k => if y = k then some x else none | none => none
   -- vec.rs:172-195  where Self: Linear<Scalar = Sc>, Sc: Linear<Scalar = Sc>;  dot(&self, other: &Self) -> Sc
   | .dot => match x with | .vec s _ _ => if scLinear s ∧ y = x then some (.sc s) else none | _ => none
+  -- vec.rs:219  vector_project(&self, other: &Self) -> Self where Sc: Div<Sc, Output = Sc>
+  | .vproj => match x with | .vec s _ _ => if scLinear s ∧ y = x then some x else none | _ => none
+  -- angle.rs:178  Angle::min(self, other: Self) -> Self;  core: f32::min, Ord::min for the integers
+  | .min =>
+    match x with
+    | .sc _ => if y = x then some x else none
+    | .angle => if y = .angle then some .angle else none
+    | _ => none
   -- vec.rs:254-310  impl Vector<R, Real<3,B>> … cross(&self, other: &Self) -> Self where [Sc;3]: Into<Self>
   | .cross =>
     match x with
@@ -470,8 +509,8 @@ def spaceClash (a b : Space) : Option Misuse :=
     | .real n s, .real n' s' => if s = s' ∧ n ≠ n' then some .mixDim else some .mixSpace
     | _, _ => some .mixSpace
 
-/-- Misuse of a pair of operands that are combined component-wise. -/
-def tagClash (x y : Ty) : Option Misuse :=
+/-- Misuse of a pair of tagged operands that are combined component-wise. -/
+def tagClash0 (x y : Ty) : Option Misuse :=
   match x.space?, y.space?, x.dim?, y.dim? with
   | some sx, some sy, some nx, some ny =>
     match spaceClash sx sy with
@@ -479,13 +518,21 @@ def tagClash (x y : Ty) : Option Misuse :=
     | none => if nx ≠ ny then some .mixDim else none
   | _, _, _, _ => none
 
+/-- The same, looking inside tuples (tuples are combined component-wise by `Lerp`). -/
+def tagClash : Ty → Ty → Option Misuse
+  | .pair a b, .pair c d =>
+    match tagClash a c with
+    | some m => some m
+    | none => tagClash b d
+  | x, y => tagClash0 x y
+
 /-- An angle combined additively with a bare number. -/
 def unitClash (x y : Ty) : Option Misuse :=
   if (x.isAngle && y.isScalar) || (x.isScalar && y.isAngle) then some .angleUnit else none
 
 /-- Operators that combine their two operands component-wise. -/
 def Op2.additive : Op2 → Bool
-  | .add | .sub | .mAdd | .mSub | .dot | .cross | .distance => true
+  | .add | .sub | .mAdd | .mSub | .addAssign | .subAssign | .dot | .cross | .distance | .vproj => true
   | _ => false
 
 def mis1 (o : Op1) (x : Ty) : Option Misuse :=
@@ -508,6 +555,12 @@ def mis1 (o : Op1) (x : Ty) : Option Misuse :=
   | .toSrgb => match x with | .col _ _ sp => if sp = .linRgb then none else some .colourSpace | _ => none
   | .toColor3 | .toColor4 =>
     match x with | .col _ _ sp => if sp = .rgb ∨ sp = .rgba then none else some .colourSpace | _ => none
+  | .chanR => match x with | .col _ _ sp => if sp = .rgb ∨ sp = .rgba then none else some .colourSpace | _ => none
+  | .chanH => match x with | .col _ _ sp => if sp = .hsl ∨ sp = .hsla then none else some .colourSpace | _ => none
+  | .compZ =>
+    match x with
+    | .vec _ _ (.real n _) | .pt _ _ (.real n _) => if n < 3 then some .mixDim else none
+    | _ => none
   | .render =>
     match x.space?, x.dim? with
     | some sp, some n => if sp = .proj4 ∧ n = 4 then none else some .shaderOutput
@@ -552,13 +605,16 @@ def mis2 (o : Op2) (x y : Ty) : Option Misuse :=
   | .thn => misCompose y x
   | .polar => if x.isAngle || y.isScalar then some .angleUnit else none
   | .atan2 => if x.isAngle || y.isAngle then some .angleUnit else none
-  | .mul | .div | .mMul | .pairOf => none
+  | .mul | .div | .mMul | .mulAssign | .divAssign | .pairOf => none
+  | .min => unitClash x y
   | _ =>
     -- the additive family
-    if (o = .add ∨ o = .mAdd) ∧ x.isPt ∧ y.isPt then some .addPoints
+    if (o = .add ∨ o = .mAdd ∨ o = .addAssign) ∧ x.isPt ∧ y.isPt then some .addPoints
     else match tagClash x y with
       | some m => some m
-      | none => if o = .add ∨ o = .sub ∨ o = .mAdd ∨ o = .mSub then unitClash x y else none
+      | none =>
+        if o = .add ∨ o = .sub ∨ o = .mAdd ∨ o = .mSub ∨ o = .addAssign ∨ o = .subAssign then unitClash x y
+        else none
 
 def mis3 (o : Op3) (x y z : Ty) : Option Misuse :=
   match o with
